@@ -6,7 +6,7 @@ from vf import common
 from vf.bounded import ir_domain, ir_findings, roundtrip as R, rt_check
 from vf.props import deductive
 
-KEYS = ["vf.contracts.laws:chain_class_function_documented", "vf.contracts.laws:chain_function_class_documented", "vf.contracts.laws:chain_function_argparse_documented", "vf.contracts.laws:chain_class_argparse_documented", "vf.contracts.laws:chain_argparse_class_documented", "vf.contracts.laws:chain_argparse_function_documented", "vf.contracts.laws:chain_class_argparse", "vf.contracts.laws:chain_argparse_class", "vf.contracts.laws:chain_class_function", "vf.contracts.laws:chain_function_class", "vf.contracts.laws:chain_argparse_function", "vf.contracts.laws:argparse_function_roundtrip", "vf.contracts.laws:class_roundtrip", "vf.contracts.laws:class_roundtrip_documented", "vf.contracts.laws:function_roundtrip_documented", "vf.contracts.laws:argparse_option_roundtrip", "doctrans.parse:argparse_ast", "doctrans.emitter_utils:_handle_keyword", "vf.contracts.laws:function_signature_roundtrip", "vf.contracts.laws:class_attribute_roundtrip", "doctrans.defaults_utils:set_default_doc", "doctrans.emitter_utils:parse_out_param", "doctrans.ast_utils:get_function_type", "doctrans.emitter_utils:get_internal_body", "doctrans.docstring_parsers:parse_docstring"]
+KEYS = ["vf.contracts.laws:chain_class_function_documented", "vf.contracts.laws:chain_function_class_documented", "vf.contracts.laws:chain_function_argparse_documented", "vf.contracts.laws:chain_class_argparse_documented", "vf.contracts.laws:chain_argparse_class_documented", "vf.contracts.laws:chain_argparse_function_documented", "vf.contracts.laws:chain_class_argparse", "vf.contracts.laws:chain_argparse_class", "vf.contracts.laws:chain_class_function", "vf.contracts.laws:chain_function_class", "vf.contracts.laws:chain_argparse_function", "vf.contracts.laws:argparse_function_roundtrip", "vf.contracts.laws:argparse_function_roundtrip_documented", "vf.contracts.laws:class_roundtrip", "vf.contracts.laws:class_roundtrip_documented", "vf.contracts.laws:function_roundtrip_documented", "vf.contracts.laws:argparse_option_roundtrip", "doctrans.parse:argparse_ast", "doctrans.emitter_utils:_handle_keyword", "vf.contracts.laws:function_signature_roundtrip", "vf.contracts.laws:class_attribute_roundtrip", "doctrans.defaults_utils:set_default_doc", "doctrans.emitter_utils:parse_out_param", "doctrans.ast_utils:get_function_type", "doctrans.emitter_utils:get_internal_body", "doctrans.docstring_parsers:parse_docstring"]
 
 
 def chain_domain(tier, seed):
